@@ -31,6 +31,14 @@ func keySegments(v ssa.Value, depth int) (segs []keySeg, ok bool) {
 	if depth > 64 {
 		return nil, false
 	}
+	// string(buf) of a byte buffer filled by append / strconv.Append*: look at the buffer
+	if cv, isCv := v.(*ssa.Convert); isCv {
+		if sl, isSl := cv.X.Type().Underlying().(*types.Slice); isSl {
+			if bt, isB := sl.Elem().Underlying().(*types.Basic); isB && bt.Kind() == types.Uint8 {
+				return byteBufSegments(cv.X, depth+1)
+			}
+		}
+	}
 	v = unconv(v)
 	if s, isC := constString(v); isC {
 		return []keySeg{{lit: s}}, true
@@ -88,6 +96,9 @@ func keySegments(v ssa.Value, depth int) (segs []keySeg, ok bool) {
 				segs = append(segs, keySeg{lit: format[pos:]})
 			}
 			return segs, true
+		case name == "strconv.FormatInt" || name == "strconv.Itoa" || name == "strconv.FormatUint":
+			// a decimal rendering: the component is the number
+			return []keySeg{{val: x.Call.Args[0], how: "%d"}}, true
 		case escapingFuncs[name]:
 			return []keySeg{{val: x.Call.Args[len(x.Call.Args)-1], escaped: true, how: name}}, true
 		case name == "strings.Join":
@@ -246,4 +257,88 @@ func segsString(segs []keySeg) string {
 		}
 	}
 	return b.String()
+}
+
+// fmtShape renders the construction of a string as a pattern ("bytes %d-%d/%d") and its operands, whether it is
+// built by Sprintf, by concatenation with strconv conversions, or a mix.
+func fmtShape(v ssa.Value) (pattern string, ops []ssa.Value, ok bool) {
+	segs, ok := keySegments(v, 0)
+	if !ok {
+		return "", nil, false
+	}
+	var b strings.Builder
+	for _, s := range segs {
+		if s.val == nil {
+			b.WriteString(strings.ReplaceAll(s.lit, "%", "%%"))
+			continue
+		}
+		verb := s.how
+		if !strings.HasPrefix(verb, "%") {
+			verb = "%v"
+		}
+		b.WriteString(verb)
+		ops = append(ops, unconv(s.val))
+	}
+	return b.String(), ops, true
+}
+
+// byteBufSegments linearises a []byte built by make / append(buf, s...) / append(buf, 'c') / strconv.AppendQuote(buf, s)
+// / strconv.AppendInt(buf, n, 10) in straight-line code.
+func byteBufSegments(v ssa.Value, depth int) ([]keySeg, bool) {
+	if depth > 64 {
+		return nil, false
+	}
+	switch x := v.(type) {
+	case *ssa.MakeSlice:
+		if k, isC := constInt(x.Len); isC && k == 0 {
+			return nil, true
+		}
+		return nil, false
+	case *ssa.Const:
+		return nil, x.Value == nil // nil slice
+	case *ssa.Call:
+		if bi, isB := x.Call.Value.(*ssa.Builtin); isB && bi.Name() == "append" && len(x.Call.Args) == 2 {
+			head, ok := byteBufSegments(x.Call.Args[0], depth+1)
+			if !ok {
+				return nil, false
+			}
+			tail := x.Call.Args[1]
+			// append(buf, str...)
+			if isStringType(tail.Type()) {
+				inner, ok := keySegments(tail, depth+1)
+				if !ok {
+					return nil, false
+				}
+				return append(head, inner...), true
+			}
+			// append(buf, 'c', 'd'): a literal slice of constant bytes
+			if elems, ok := literalSliceElems(tail); ok {
+				var b []byte
+				for _, e := range elems {
+					k, isC := constInt(e)
+					if !isC {
+						return nil, false
+					}
+					b = append(b, byte(k))
+				}
+				return append(head, keySeg{lit: string(b)}), true
+			}
+			return nil, false
+		}
+		switch calleeName(x) {
+		case "strconv.AppendQuote", "strconv.AppendQuoteToASCII":
+			head, ok := byteBufSegments(x.Call.Args[0], depth+1)
+			if !ok {
+				return nil, false
+			}
+			return append(head, keySeg{val: x.Call.Args[1], escaped: true, how: calleeName(x)}), true
+		case "strconv.AppendInt", "strconv.AppendUint":
+			head, ok := byteBufSegments(x.Call.Args[0], depth+1)
+			if !ok {
+				return nil, false
+			}
+			return append(head, keySeg{val: x.Call.Args[1], how: "%d"}), true
+		}
+	}
+	return nil, false
 }
